@@ -574,6 +574,14 @@ HCPcdeflate_write(accrec_t *access_rec, int32 length, const void *data)
     if ((info->length != deflate_info->offset) && (deflate_info->offset != 0 || length < info->length))
         HRETURN_ERROR(DFE_UNSUPPORTED, FAIL);
 
+    /* Only the access which is writing a 'deflate' stream can add to its end.
+       Once the data has been read again, or for another access which has
+       positioned itself at the end, the stream would have to be compressed
+       again from its start: starting a new stream here would lose what is
+       stored already. */
+    if (deflate_info->acc_init != DFACC_WRITE && deflate_info->offset != 0)
+        HRETURN_ERROR(DFE_UNSUPPORTED, FAIL);
+
     /* Check if second stage of initialization has been performed */
     if (deflate_info->acc_init != DFACC_WRITE) {
         /* Terminate the previous method of access */
